@@ -14,11 +14,63 @@ structure JudgeFacts (rt : Routing) (c : Call) (o : Out) : Prop where
   target : ∀ r s, targetOk ⟨c, o.exch, o.res, r, s⟩ = true
   mirror : o.exch.foldl foldExch rt = o.rt
   result : ∀ r s, resultOk ⟨c, o.exch, o.res, r, s⟩ = true
+  unsubIssued : unsubIssuedOk o.exch = true
+
+/-! ### "once an unsubscribe has been issued its SID is no longer routed" — at the arrival of every UNSUBSCRIBE -/
+
+def unsubP (e : Exch) : Bool := e.req.method != mUNSUBSCRIBE || e.req.routed.isNone
+
+theorem unsubP_sub (svc : Nat) (t : Int) (r : Reaction) : unsubP ⟨subscribeRequest cfg svc t, r⟩ = true := by
+  simp [unsubP, sub_method, mSub_ne_mUnsub]
+theorem unsubP_ren (svc : Nat) (sid : Str) (t : Int) (r : Reaction) : unsubP ⟨renewRequest cfg svc sid t, r⟩ = true := by
+  simp [unsubP, ren_method, mSub_ne_mUnsub]
+theorem unsubP_uns (svc : Nat) (sid : Str) (r : Reaction) : unsubP ⟨unsubRequest cfg svc sid, r⟩ = true := by
+  simp [unsubP, uns_routed]
+
+theorem doResubscribe_unsubP (rt : Routing) (tg : Target) (t : Int) (rs : List Reaction) :
+    (doResubscribe cfg rt tg t rs).exch.all unsubP = true := by
+  rcases doResubscribe_shape cfg rt tg t rs with h | ⟨svc, sid, react, h, _⟩ | ⟨svc, sid, st, a, b, r2, _, h⟩
+  · rw [h]; rfl
+  · rw [h]; simp [unsubP_ren]
+  · rw [h]; simp [unsubP_ren, unsubP_sub]
+
+theorem doUnsubscribe_unsubP (rt : Routing) (tg : Target) (rs : List Reaction) :
+    (doUnsubscribe cfg rt tg rs).exch.all unsubP = true := by
+  unfold doUnsubscribe
+  cases resolve rt tg with
+  | none => rfl
+  | some p => obtain ⟨sid, svc⟩ := p; simp [unsubP_uns]
+
+theorem resubAll_unsubP (sids : List Str) (rt : Routing) (rs : List Reaction) (first : Option Exc) :
+    (resubAll cfg sids rt rs first).exch.all unsubP = true := by
+  induction sids generalizing rt rs first with
+  | nil => rfl
+  | cons s more ih =>
+    simp only [resubAll, List.all_append, Bool.and_eq_true]
+    exact ⟨doResubscribe_unsubP cfg rt _ _ rs, ih _ _ _⟩
+
+theorem unsubAll_unsubP (sids : List Str) (rt : Routing) (rs : List Reaction) :
+    (unsubAll cfg sids rt rs).exch.all unsubP = true := by
+  induction sids generalizing rt rs with
+  | nil => rfl
+  | cons s more ih =>
+    simp only [unsubAll, List.all_append, Bool.and_eq_true]
+    exact ⟨doUnsubscribe_unsubP cfg rt _ rs, ih _ _⟩
+
+theorem runCall_unsubIssued (rt : Routing) (c : Call) (rs : List Reaction) :
+    unsubIssuedOk (runCall cfg rt c rs).exch = true := by
+  show (runCall cfg rt c rs).exch.all unsubP = true
+  cases c with
+  | subscribe svc t => simp [runCall, doSubscribe, unsubP_sub]
+  | resubscribe tg t => exact doResubscribe_unsubP cfg rt tg t rs
+  | unsubscribe tg => exact doUnsubscribe_unsubP cfg rt tg rs
+  | resubscribeAll => exact resubAll_unsubP cfg _ rt rs none
+  | unsubscribeAll => exact unsubAll_unsubP cfg _ rt rs
 
 theorem judgeFacts_runCall (rt : Routing) (c : Call) (rs : List Reaction) (hn : (keys rt).Nodup) (hw : callWF c) :
     JudgeFacts rt c (runCall cfg rt c rs) :=
   let h := runCall_ok cfg rt c rs hn hw
-  ⟨h.nodup, h.valid, runCall_fallback cfg rt c rs, h.target, h.mirror, h.result⟩
+  ⟨h.nodup, h.valid, runCall_fallback cfg rt c rs, h.target, h.mirror, h.result, runCall_unsubIssued cfg rt c rs⟩
 
 theorem takeReacts_length (n : Nat) (rs : List Reaction) : (takeReacts n rs).1.length = n := by
   induction n generalizing rs with
@@ -98,14 +150,14 @@ theorem phase3_nodup (t : Int) (subs : List (Nat × Reaction)) (p : Routing × O
   | nil => exact hn
   | cons x more ih => exact ih _ (nodup_subscribeFinish _ _ _ _ hn)
 
-theorem phase3_mirror (t : Int) (subs : List (Nat × Reaction)) (p : Routing × Option Exc) :
+theorem phase3_mirror (t : Int) (ht : 0 ≤ t) (subs : List (Nat × Reaction)) (p : Routing × Option Exc) :
     (subs.map (subE cfg t)).foldl foldExch p.1 = (resubPhase3 t subs p).1 := by
   induction subs generalizing p with
   | nil => rfl
   | cons x more ih =>
     obtain ⟨svc, r⟩ := x
     simp only [List.map_cons, List.foldl_cons, resubPhase3]
-    have := (sub_exch_spec cfg p.1 svc t r).1
+    have := (sub_exch_spec cfg p.1 svc t r ht).1
     simp only [subE] at this ⊢
     rw [this]
     exact ih (_, _)
@@ -180,7 +232,7 @@ theorem resubAllSusp_facts (rt : Routing) (rs : List Reaction) (hn : (keys rt).N
   have e2 : (fun x : Nat × Reaction => (⟨subscribeRequest cfg x.1 Gen.C09Gena.defaultTimeoutResubscribe, x.2⟩ : Exch))
       = subE cfg Gen.C09Gena.defaultTimeoutResubscribe := rfl
   rw [e1, e2]
-  refine ⟨?_, ?_, ?_, fun _ _ => by simp [targetOk]; split <;> rfl, ?_, fun _ _ => rfl⟩
+  refine ⟨?_, ?_, ?_, fun _ _ => by simp [targetOk]; split <;> rfl, ?_, fun _ _ => rfl, ?_⟩
   · apply phase3_nodup
     rw [← hp2]
     exact phase2_nodup _ _ _ hn
@@ -195,7 +247,10 @@ theorem resubAllSusp_facts (rt : Routing) (rs : List Reaction) (hn : (keys rt).N
     have h2 := phase2_mirror cfg Gen.C09Gena.defaultTimeoutResubscribe rens { rt := rt, fallbacks := [], first := none }
     simp only at h2
     rw [h2, hp2]
-    exact phase3_mirror cfg _ subs (p2.rt, p2.first)
+    exact phase3_mirror cfg _ defaultTimeout_nonneg subs (p2.rt, p2.first)
+  · show (_ ++ _ : List Exch).all unsubP = true
+    simp only [List.all_append, List.all_map, Bool.and_eq_true, List.all_eq_true]
+    exact ⟨fun x _ => unsubP_ren cfg _ _ _ _, fun x _ => unsubP_sub cfg _ _ _⟩
 
 theorem judgeFacts_runCallS (susp : Bool) (rt : Routing) (c : Call) (rs : List Reaction) (hn : (keys rt).Nodup)
     (hw : callWF c) : JudgeFacts rt c (runCallS cfg susp rt c rs) := by
